@@ -5,6 +5,12 @@ COMMON_TB = []
 PROPS = {
  "C15": dict(
     level="proof", pfile="P_C15.v", rmod="R_C15", judge="judge_C15",
+    level_text="Theorems (all unit tables satisfying the decidable table_ok, all int64 values, all spellings): exact-ratio conversion, "
+               "identity, negation, family confinement, unknown units untouched, auto picks the largest unit >= 1, label read-back "
+               "within half a printed digit, label monotonicity, percentage = absolute ratio; table facts re-proved by vm_compute on the "
+               "unit table regenerated from /repo each run; model tied to the code by 16k+ differential cases per quick run.",
+    level_note="Values are exact rationals in the model, float64 in Go: compared within 2^-40 relative, boundary cases skipped and counted; "
+               "trusted: Coq kernel + vm_compute, translator gen-unittable, harness, fmt/strconv number formatting, strings.ToLower beyond ASCII.",
     translators=[("gen-unittable", "Gen/Gen_UnitTable.v")],
     rule="inputs = (op, value, from-unit, to-unit): full spelling x target matrix (every alias, plural, case variant, "
          "unknown units) with rotating boundary values, plus random triples, monotonicity pairs, percentages and "
@@ -18,3 +24,8 @@ PROPS = {
                  "fmt %.2f / %5.2g rendering trusted; %5.2g strings are not compared"],
  ),
 }
+
+BASELINE_OFF = "cd /repo && go test -mod=mod -json -vet=off -count=1 -timeout 25m ./... && cd /repo/browsertests && go test -mod=mod -json -vet=off -count=1 -timeout 25m ./..."
+
+_pending = "check not built yet in this session (see DESIGN.md 5 for the planned model and theorems)"
+NOT_APPLICABLE = {("C%02d" % i): _pending for i in range(1, 21)}
